@@ -330,22 +330,22 @@ func cmdCheck(args []string) int {
 		"explanation": "Static analysis of /repo's current source (go/packages + go/types" +
 			", go/cfg, go/ssa, VTA call graph where a rule needs them); nothing is executed. DECIDED: " + pr.Decided +
 			" NOT DECIDED (outside what a static shape argument can reach; not approximated by running code): " + pr.NotDecided,
-		"obligations":       nObl,
-		"discharged":        nDis,
-		"unmodelled":        len(unmod),
-		"unmodelled_list":   unmod,
-		"violations_new":    len(newViol),
-		"violations_known":  len(knownViol),
-		"exhaustive":        true,
-		"rules":             revs,
-		"samples":           samples,
-		"advisory":          infos,
-		"packages_analysed": len(p.Pkgs),
-		"package_list":      pkgNames,
-		"files_analysed":    p.Files,
-		"functions_parsed":  p.Funcs,
+		"obligations":        nObl,
+		"discharged":         nDis,
+		"unmodelled":         len(unmod),
+		"unmodelled_list":    unmod,
+		"violations_new":     len(newViol),
+		"violations_known":   len(knownViol),
+		"exhaustive":         true,
+		"rules":              revs,
+		"samples":            samples,
+		"advisory":           infos,
+		"packages_analysed":  len(p.Pkgs),
+		"package_list":       pkgNames,
+		"files_analysed":     p.Files,
+		"functions_parsed":   p.Funcs,
 		"normalised_at_load": map[string]int{"tagless_switches_as_if_chains": p.Desugared, "table_loops_unrolled": p.Unrolled, "branch_clamps_as_min_max": p.Clamps},
-		"checker_cmd":       fmt.Sprintf("/verif/check %s %s", *pid, *tier),
+		"checker_cmd":        fmt.Sprintf("/verif/check %s %s", *pid, *tier),
 		"trusted_base": []string{"Go parser and type checker (go/types)", "golang.org/x/tools v0.29.0 (go/packages, go/cfg, go/ssa, callgraph/vta)",
 			"gopkg.in/yaml.v3", "ztyp codec/view/tree semantics", "bls12-381-util", "frozen tables transcribed from consensus-specs v1.5.0-beta.2 inside the checker"},
 	}
